@@ -97,6 +97,7 @@ func plan(tier string, seed int64) []sup.Batch {
 		add(sup.Chunk("rand-"+v, "rand-"+v, nRand, (nRand+randBatches-1)/randBatches, 1, map[string]any{"variant": v}))
 		add(sup.Chunk("adapt-"+v, "adapt-"+v, nAdapt, (nAdapt+3)/4, 1, map[string]any{"variant": v}))
 		add(sup.Chunk("special-"+v, "special-"+v, nRand/4, (nRand/4+1)/2, 1, map[string]any{"variant": v}))
+		add(sup.Chunk("reuse-"+v, "reuse-"+v, nRand/4, (nRand/4+1)/2, 1, map[string]any{"variant": v}))
 	}
 	nn := nameTotal(nameLen)
 	const nameBlk = 4000
@@ -658,6 +659,7 @@ func main() {
 		Rule: "exh: every value of length ≤ L (4 quick / 5 thorough) over {$ ` \" ' \\ newline space ( ) a E}, 200 variables per /bin/sh run, for the container script (dcmd.InitSequence) and the SSH script (sshsb initSequence via the verif export); " +
 			"rand: random maps of 1…40 variables with hostile values (command substitutions creating canary files, $OTHER references, EOF-like lines, assignments, trailing newlines, control and non-ASCII bytes, values above one pipe buffer), each run twice with one variable changed; " +
 			"special: maps that configure PATH (every other case: a directory list without the standard utilities, empty, relative …), IFS, HOME, ENV, CDPATH, LANG … next to 1…5 ordinary variables – every variable must still arrive, whatever the order of assignment; " +
+			"reuse: one Environments object through 2–3 generations (build a script, change one variable and add one with Set – now and then SetAll –, build the next script): every script sets what is configured when it is built; " +
 			"adapt: values that contain the here-document terminators observed in earlier scripts of the same process; " +
 			"names: every name of length ≤ N (3 quick / 4 thorough) over a 24-symbol alphabet plus random longer ones through Set and SetAll; " +
 			"distinct = distinct (variant, map) / blocks, non-trivial = some value holds a shell-significant character",
@@ -681,6 +683,8 @@ func main() {
 				runAdapt(c, b)
 			case strings.HasPrefix(b.Kind, "special-"):
 				runSpecial(c, b)
+			case strings.HasPrefix(b.Kind, "reuse-"):
+				runReuse(c, b)
 			case b.Kind == "names-exh":
 				runNamesExh(c, b)
 			case b.Kind == "names-rand":
@@ -692,7 +696,7 @@ func main() {
 		Finish: func(t *sup.Totals) string {
 			var missing []string
 			for _, k := range []string{"shell_runs", "vars_checked_container", "vars_checked_ssh", "exh_values_container", "exh_values_ssh",
-				"child_environments_read", "values_with_canary_command", "independence_pairs", "adapt_runs", "maps_that_configure_PATH", "maps_with_a_variable_the_shell_interprets_container", "maps_with_a_variable_the_shell_interprets_ssh", "names_checked", "nonidentifier_names_rejected", "plain_names_accepted"} {
+				"child_environments_read", "values_with_canary_command", "independence_pairs", "adapt_runs", "maps_that_configure_PATH", "scripts_built_after_a_later_Set_container", "scripts_built_after_a_later_Set_ssh", "maps_with_a_variable_the_shell_interprets_container", "maps_with_a_variable_the_shell_interprets_ssh", "names_checked", "nonidentifier_names_rejected", "plain_names_accepted"} {
 				if t.Obs[k] == 0 {
 					missing = append(missing, k)
 				}
